@@ -572,6 +572,23 @@ func (w *Writer) ForceSeal() (uint64, error) {
 		return w.writer.indexStart, nil
 	}
 
+	// Save any state we may need to rollback, just like Append. If writing the
+	// index out fails we must not be left thinking we are sealed: a retry would
+	// hit the no-op case above and hand the caller the offset of an index that
+	// was never written, which then gets persisted in the segment's metadata.
+	sealed := false
+	beforeBuf := w.writer.commitBuf
+	beforeCRC := w.writer.crc
+	beforeWriteOffset := w.writer.writeOffset
+	defer func() {
+		if !sealed {
+			w.writer.commitBuf = beforeBuf
+			w.writer.crc = beforeCRC
+			w.writer.indexStart = 0
+			w.writer.writeOffset = beforeWriteOffset
+		}
+	}()
+
 	// Seal the segment! We seal it by writing an index frame before we commit.
 	if err := w.appendIndex(); err != nil {
 		return 0, err
@@ -582,6 +599,7 @@ func (w *Writer) ForceSeal() (uint64, error) {
 		return 0, err
 	}
 
+	sealed = true
 	return w.writer.indexStart, nil
 }
 
